@@ -48,7 +48,8 @@ func (c20) Plan(tier string, seed int64) []mon.Workload {
 	}
 	return []mon.Workload{{Name: "invocations", N: n, BatchTimeoutS: 1800},
 		{Name: "mode-matrix", N: int64(len(c20MatrixBodies) * 2 * 3 * 2 * 2), Exhaustive: true, BatchTimeoutS: 1800},
-		{Name: "lp-inputs", N: int64(len(c20LPInputs) * len(c20LPBodies) * 2 * 2), Exhaustive: true, BatchTimeoutS: 1800}}
+		{Name: "lp-inputs", N: int64(len(c20LPInputs) * len(c20LPBodies) * 2 * 2), Exhaustive: true, BatchTimeoutS: 1800},
+		{Name: "text-inputs", N: int64(len(c20TextInputs) * len(c20TextBodies) * 2 * 2), Exhaustive: true, BatchTimeoutS: 1800}}
 }
 
 // mode-matrix (exhaustive): every way of calling the runner x a handful of
@@ -99,6 +100,32 @@ func c20LPCase(i int64) c20Case {
 	cs := c20Case{Files: map[string]string{}, Script: "sel.p", OutType: out, Mode: mode, Features: []string{"lp-input", body.Name}}
 	cs.Files["sel.p"] = body.Text
 	cs.InType, cs.Input = "lineprotocol", in
+	return cs
+}
+
+// text-inputs (exhaustive): text inputs that are not plain ASCII lines -
+// bytes that are not valid UTF-8 (latin-1 text, a multi-byte character cut
+// off, several bad bytes in a row), NUL, CR, tabs, a BOM, no final newline /
+// several - x bodies that pass the message through / measure it / cut it
+// x {json, lineprotocol} x {workspace, single file}: the script sees, and the
+// output shows, the bytes of the file.
+var c20TextInputs = []string{"caf\xe9 au lait", "cut off \xe4\xb8", "\xff\xfe\xfd three", "a\xc3", "nul\x00inside", "cr\r\nlf\n", "\ufeffbom first", "tab\tand  spaces ", "trailing\n\n\n", "é世😀 valid", "\xed\xa0\x80 surrogate", "x"}
+var c20TextBodies = []struct{ Name, Text string }{
+	{"pass-through", "add_key(nk, 1)\n"},
+	{"measure", "add_key(n, len(_))\nadd_key(head, _[0:3])\nadd_key(tail, _[-2:])\n"},
+	{"copy", "add_key(copy, _)\nuppercase(copy)\n"},
+}
+
+func c20TextCase(i int64) c20Case {
+	out := []string{"json", "lineprotocol"}[i%2]
+	i /= 2
+	mode := []string{"workspace", "single"}[i%2]
+	i /= 2
+	body := c20TextBodies[int(i)%len(c20TextBodies)]
+	in := c20TextInputs[int(i)/len(c20TextBodies)]
+	cs := c20Case{Files: map[string]string{}, Script: "sel.p", OutType: out, Mode: mode, Features: []string{"text-input", body.Name}}
+	cs.Files["sel.p"] = body.Text
+	cs.InType, cs.Input = "text", in
 	return cs
 }
 
@@ -264,6 +291,8 @@ func (k c20) Describe(c *mon.Ctx, workload string, i int64) any {
 		return c20Matrix(i)
 	case "lp-inputs":
 		return c20LPCase(i)
+	case "text-inputs":
+		return c20TextCase(i)
 	}
 	return k.build(c)
 }
@@ -391,6 +420,9 @@ func (k c20) Run(c *mon.Ctx, workload string, i int64) {
 	}
 	if workload == "lp-inputs" {
 		cs = c20LPCase(i)
+	}
+	if workload == "text-inputs" {
+		cs = c20TextCase(i)
 	}
 	bin := filepath.Join(root(), ".build", "platypus")
 	if _, err := os.Stat(bin); err != nil {
